@@ -270,6 +270,21 @@ func rUnitName(flag int, v int) string {
 	return "s"
 }
 
+// rSlotCollision classifies an early firing (it does not decide whether there is one). The millisecond wheels have
+// MILLISECOND_QUEUE_LENGTH slots indexed by (now + v) % length and no absolute time per slot: a timer whose slot still
+// holds the queue of the millisecond one wheel turn earlier (its goroutine is 3000 - v ms late, or has not yet got the
+// shard mutex) joins that queue and fires with it, i.e. within 3000 - v ms (+ lateness) of being filed. Only values
+// that end on the millisecond wheel (v < length) and lie in its last 400 ms are given the slug, so that every other
+// early firing keeps its generic one.
+const rSlotCollisionFrom = MILLISECOND_QUEUE_LENGTH - 400
+
+func rSlotCollision(v int, flag int, elapsed time.Duration, slack time.Duration) bool {
+	if flag&rTFms == 0 || v >= MILLISECOND_QUEUE_LENGTH || v <= rSlotCollisionFrom {
+		return false
+	}
+	return elapsed <= time.Duration(MILLISECOND_QUEUE_LENGTH-v)*time.Millisecond+slack
+}
+
 func rFmt(d time.Duration) string { return fmt.Sprintf("%.1fms", float64(d)/float64(time.Millisecond)) }
 
 // effective earliest end of a hold given its sets: an update that moves the deadline by at most one unit may be ignored.
@@ -452,7 +467,11 @@ func rJudge(c *rCase, run *rRun) *rVerdict {
 			v.info.staleSets++
 		}
 		if ev.at < lo {
-			add("early", "C05:rt:timeout-early-"+unit, "request #%d (%v): TIMEOUT %s after the request was handed to the server (sent at %s, TIMEOUT stamped at %s); earliest admissible %s (server clock %d s stale at send)",
+			key := "C05:rt:timeout-early-" + unit
+			if rSlotCollision(q.op.T, q.op.TF, ev.at-q.send.at, slack) {
+				key = "C05:rt:ms-wheel-slot-collision"
+			}
+			add("early", key, "request #%d (%v): TIMEOUT %s after the request was handed to the server (sent at %s, TIMEOUT stamped at %s); earliest admissible %s (server clock %d s stale at send)",
 				q.step, q.op, rFmt(ev.at-q.send.at), rFmt(q.send.at), rFmt(ev.at), rFmt(lo-q.send.at), stale)
 		}
 		if q.ret != nil {
@@ -514,6 +533,9 @@ func rJudge(c *rCase, run *rRun) *rVerdict {
 			} else if n.at < lo {
 				key := "C06:rt:expiry-early-" + unit
 				what := ""
+				if len(h.sets) == 1 && rSlotCollision(gov.req.op.E, gov.req.op.EF, n.at-gov.lb.at, slack) {
+					key = "C06:rt:ms-wheel-slot-collision"
+				}
 				if len(h.sets) > 1 {
 					unitChanged := false
 					for i := 1; i < len(h.sets); i++ {
